@@ -1,7 +1,7 @@
 (* C15 - proofs about tonic's TLS wiring (Model/Tls.v).
    rustls is the two handshake oracles; what is assumed of them ([connect_sound],
    [accept_sound]) is a section hypothesis here and a premise of the closed theorems. *)
-From Coq Require Import List Bool NArith Lia.
+From Coq Require Import List Bool NArith Lia PeanoNat.
 From Verif Require Import Lib.Obs Model.Tls.
 Import ListNotations.
 Open Scope N_scope.
@@ -20,13 +20,52 @@ Proof.
   apply list_eqb_N_eq in H. now subst.
 Qed.
 
+(* ------------------------------------------------------------------ PEM blobs *)
+Section PemFacts.
+  Context {A : Type}.
+
+  (* the reader succeeds iff every section decodes, and then the store gets exactly the
+     certificates of the blob, in order *)
+  Lemma convert_certificate_some : forall (p : list (pem_sec A)) l,
+    convert_certificate p = Some l -> pem_decodes p = true /\ add_parsable l = pem_certs p.
+  Proof.
+    induction p as [|s p IH]; simpl; intros l H.
+    - injection H as <-. split; reflexivity.
+    - destruct s as [x| |]; [| |discriminate];
+        destruct (convert_certificate p) as [l'|]; try discriminate;
+        injection H as <-; destruct (IH l' eq_refl) as [D E]; split; simpl; auto.
+      now rewrite E.
+  Qed.
+
+  Lemma convert_certificate_none : forall (p : list (pem_sec A)),
+    convert_certificate p = None <-> pem_decodes p = false.
+  Proof.
+    induction p as [|s p IH]; simpl.
+    - split; discriminate.
+    - destruct s as [x| |]; simpl; [| |split; reflexivity];
+        destruct (convert_certificate p) as [l'|]; split; intro H; try discriminate; try reflexivity;
+        try (now apply IH); try (apply IH in H; discriminate).
+  Qed.
+
+  Lemma convert_certificate_decodes : forall (p : list (pem_sec A)),
+    pem_decodes p = true -> exists l, convert_certificate p = Some l.
+  Proof.
+    intros p H. destruct (convert_certificate p) as [l|] eqn:E; [now exists l|].
+    apply convert_certificate_none in E. congruence.
+  Qed.
+
+  (* a blob made of certificates only *)
+  Lemma pem_certs_map_SecCert : forall l : list A, pem_certs (map SecCert l) = l.
+  Proof. unfold pem_certs. induction l as [|x l IH]; simpl; [reflexivity|]. now rewrite IH. Qed.
+End PemFacts.
+
 Section Laws.
   Context {cert ca dname : Type}.
   Variable chain_ok : list ca -> cert -> bool.
   Variable name_ok : dname -> cert -> bool.
   Variable client_cert_ok : ca -> cert -> bool.
   Variable valid_name : dname -> bool.
-  Variable ca_usable : ca -> bool.
+  Variable key_matches : cert -> cert -> bool.
   Variable native_certs : list ca.
   Variable webpki_roots : list ca.
   Variable rc : @TlsConnector cert ca dname -> @server cert ca -> hs_client.
@@ -34,6 +73,32 @@ Section Laws.
 
   Hypothesis H_connect : connect_sound chain_ok name_ok rc.
   Hypothesis H_accept : accept_sound client_cert_ok ra.
+
+  (* ---------------------------------------------------------------- identities *)
+  (* an identity is accepted only if its certificate blob decodes and starts with a
+     certificate, and the key blob holds the key of that certificate; that certificate is the
+     one presented *)
+  Lemma certified_key_spec : forall (id : Identity cert) leaf,
+    certified_key key_matches id = inr leaf ->
+    pem_decodes (id_cert id) = true /\
+    (exists rest, id_cert id = SecCert leaf :: rest) /\
+    exists k, id_key id = Some k /\ key_matches k leaf = true.
+  Proof.
+    intros id leaf H. unfold certified_key in H.
+    destruct (convert_certificate (id_cert id)) as [chain|] eqn:C; [|discriminate].
+    destruct (convert_certificate_some _ _ C) as [D _].
+    destruct (id_key id) as [k|]; [|discriminate].
+    destruct chain as [|[x|] chain]; try discriminate.
+    destruct (key_matches k x) eqn:K; [|discriminate]. injection H as <-.
+    split; [exact D|]. split; [|now exists k].
+    destruct (id_cert id) as [|[y| |] rest]; simpl in C; try discriminate.
+    - destruct (convert_certificate rest); [|discriminate]. injection C as -> _. now exists rest.
+    - destruct (convert_certificate rest); discriminate.
+  Qed.
+
+  Lemma identity_leaf_some : forall (id : Identity cert) leaf,
+    certified_key key_matches id = inr leaf -> identity_leaf key_matches (Some id) = Some leaf.
+  Proof. intros id leaf H. unfold identity_leaf. now rewrite H. Qed.
 
   (* ---------------------------------------------------------------- TlsConnector::connect *)
   Lemma tls_connect_ok : forall t srv alpn,
@@ -57,6 +122,25 @@ Section Laws.
     destruct (negb _); discriminate.
   Qed.
 
+  (* every way TlsConnector::connect can end *)
+  Lemma tls_connect_cases : forall t srv,
+    (exists e, rc t srv = HsErr e /\ tls_connect rc t srv = ConnErr (TlsHandshake e)) \/
+    (exists alpn, rc t srv = HsOk alpn /\ alpn <> Some ALPN_H2 /\ tc_assume_http2 t = false /\
+                  tls_connect rc t srv = ConnErr H2NotNegotiated) \/
+    (exists alpn, rc t srv = HsOk alpn /\ (alpn = Some ALPN_H2 \/ tc_assume_http2 t = true) /\
+                  tls_connect rc t srv = ConnTls alpn).
+  Proof.
+    intros t srv. unfold tls_connect. destruct (rc t srv) as [e|alpn] eqn:E.
+    - left. now exists e.
+    - right. destruct (oproto_eqb alpn (Some ALPN_H2)) eqn:P; simpl.
+      + right. exists alpn. repeat split. left. now apply oproto_eqb_eq.
+      + destruct (tc_assume_http2 t) eqn:As; simpl.
+        * right. exists alpn. repeat split. now right.
+        * left. exists alpn. repeat split; auto.
+          intros ->. simpl in P. unfold proto_eqb in P.
+          now rewrite (list_eqb_refl N.eqb N.eqb_refl) in P.
+  Qed.
+
   (* ---------------------------------------------------------------- Connector::call *)
   Theorem call_sent_implies_authenticated : forall f e srv,
     f_tls f = true -> is_https (e_scheme e) = true ->
@@ -66,7 +150,8 @@ Section Laws.
       chain_ok (tc_roots t) (a_cert a) = true /\ name_ok (tc_domain t) (a_cert a) = true /\
       (alpn = Some ALPN_H2 \/ tc_assume_http2 t = true).
   Proof.
-    intros f e srv Hf Hs Ht. unfold connect_outcome in *. rewrite Hf, Hs in *. simpl in *.
+    intros f e srv Hf Hs Ht. unfold connect_outcome, connect_uri in *. simpl fst in *.
+    rewrite Hf, Hs in *. simpl in *.
     destruct (e_tls e) as [t|]; [|discriminate].
     destruct (tls_connect rc t srv) as [x| |alpn] eqn:E; [discriminate| |].
     - exfalso. now apply (tls_connect_never_plain t srv).
@@ -74,33 +159,115 @@ Section Laws.
       exists t, a, alpn. repeat split; auto.
   Qed.
 
-  Lemma connect_failure_reaches_no_handler : forall f e srv x,
-    connect_outcome rc f e srv = ConnErr x -> request_reaches_handler rc ra f e srv = false.
+  (* every way Connector::call can end for an https URI in a TLS build: the three failures and
+     the one success; nothing else, in particular no plaintext io *)
+  Theorem https_connect_cases : forall f e srv,
+    f_tls f = true -> is_https (e_scheme e) = true ->
+    (e_tls e = None /\ connect_outcome rc f e srv = ConnErr HttpsUriWithoutTlsSupport) \/
+    (exists t x, e_tls e = Some t /\ rc t srv = HsErr x /\
+                 connect_outcome rc f e srv = ConnErr (TlsHandshake x)) \/
+    (exists t alpn, e_tls e = Some t /\ rc t srv = HsOk alpn /\ alpn <> Some ALPN_H2 /\
+                    tc_assume_http2 t = false /\
+                    connect_outcome rc f e srv = ConnErr H2NotNegotiated) \/
+    (exists t alpn, e_tls e = Some t /\ rc t srv = HsOk alpn /\
+                    (alpn = Some ALPN_H2 \/ tc_assume_http2 t = true) /\
+                    connect_outcome rc f e srv = ConnTls alpn).
   Proof.
-    intros f e srv x E. unfold request_reaches_handler.
-    destruct (server_handshake rc ra f e srv); [reflexivity|].
-    destruct srv; rewrite E; reflexivity.
+    intros f e srv Hf Hs. unfold connect_outcome, connect_uri. simpl fst. rewrite Hf, Hs. simpl.
+    destruct (e_tls e) as [t|]; [|now left]. right.
+    destruct (tls_connect_cases t srv) as [(x & A & B)|[(al & A & B & C & D)|(al & A & B & C)]].
+    - left. now exists t, x.
+    - right; left. now exists t, al.
+    - right; right. now exists t, al.
+  Qed.
+
+  (* ---------------------------------------------------------------- what the server does with it *)
+  (* a handler runs exactly when the listener yielded the connection AND the client wrote its
+     request to its end of the same channel *)
+  Lemma chan_eqb_eq : forall a b, chan_eqb a b = true <-> a = b.
+  Proof. intros [] []; simpl; split; intro H; try discriminate; reflexivity. Qed.
+
+  Lemma handler_io_iff : forall f e srv io,
+    handler_io rc ra f e srv = Some io <->
+    listener_yields rc ra f e srv = Some io /\
+    request_channel (connect_outcome rc f e srv) = Some (io_chan io).
+  Proof.
+    intros f e srv io. unfold handler_io, io_delivers.
+    destruct (listener_yields rc ra f e srv) as [io'|]; [|split; [discriminate|intros [H _]; discriminate]].
+    destruct (request_channel (connect_outcome rc f e srv)) as [k|].
+    - destruct (chan_eqb (io_chan io') k) eqn:K.
+      + apply chan_eqb_eq in K. subst k. split.
+        * intro H. injection H as ->. split; reflexivity.
+        * intros [H _]. exact H.
+      + split; [discriminate|]. intros [H1 H2]. injection H1 as ->. injection H2 as ->.
+        assert (X : chan_eqb (io_chan io) (io_chan io) = true) by now apply chan_eqb_eq.
+        congruence.
+    - split; [discriminate|]. intros [_ H]. discriminate.
+  Qed.
+
+  Lemma reaches_iff : forall f e srv,
+    request_reaches_handler rc ra f e srv = true <->
+    exists io, listener_yields rc ra f e srv = Some io /\
+               request_channel (connect_outcome rc f e srv) = Some (io_chan io).
+  Proof.
+    intros f e srv. unfold request_reaches_handler. split.
+    - destruct (handler_io rc ra f e srv) as [io|] eqn:H; [|discriminate]. intros _.
+      exists io. now apply handler_io_iff.
+    - intros (io & H). apply handler_io_iff in H. now rewrite H.
+  Qed.
+
+  (* "otherwise connecting fails, no request reaches any handler": after ANY connect error
+     nothing is handed to hyper, so whatever the listener is (plaintext, TLS with any
+     configuration, [ra] arbitrary) and whatever it yielded, no handler runs, nothing is
+     exposed, no extension is built *)
+  Theorem connect_failure_reaches_no_handler : forall f e srv x,
+    connect_outcome rc f e srv = ConnErr x ->
+    request_channel (connect_outcome rc f e srv) = None /\
+    call_transmitted (connect_outcome rc f e srv) = false /\
+    handler_io rc ra f e srv = None /\
+    request_reaches_handler rc ra f e srv = false /\
+    peer_certs_exposed rc ra f e srv = None /\
+    forall t, handler_exts rc ra t f e srv = [].
+  Proof.
+    intros f e srv x E.
+    assert (C : request_channel (connect_outcome rc f e srv) = None) by now rewrite E.
+    assert (Hio : handler_io rc ra f e srv = None).
+    { destruct (handler_io rc ra f e srv) as [io|] eqn:Hh; [|reflexivity].
+      apply handler_io_iff in Hh. destruct Hh as [_ Hh]. congruence. }
+    split; [exact C|]. split; [unfold call_transmitted; now rewrite C|].
+    split; [exact Hio|].
+    unfold request_reaches_handler, peer_certs_exposed, handler_exts. rewrite Hio. auto.
   Qed.
 
   Theorem https_without_tls_fails : forall f e srv,
     f_tls f = true -> is_https (e_scheme e) = true -> e_tls e = None ->
     connect_outcome rc f e srv = ConnErr HttpsUriWithoutTlsSupport /\
     call_transmitted (connect_outcome rc f e srv) = false /\
-    request_reaches_handler rc ra f e srv = false.
+    request_reaches_handler rc ra f e srv = false /\
+    wire_of f e = 0.
   Proof.
     intros f e srv Hf Hs Hn.
     assert (E : connect_outcome rc f e srv = ConnErr HttpsUriWithoutTlsSupport).
-    { unfold connect_outcome. now rewrite Hf, Hs, Hn. }
-    split; [exact E|]. split; [now rewrite E|].
-    now apply connect_failure_reaches_no_handler with (x := HttpsUriWithoutTlsSupport).
+    { unfold connect_outcome, connect_uri. simpl fst. now rewrite Hf, Hs, Hn. }
+    destruct (connect_failure_reaches_no_handler f e srv _ E) as (_ & T & _ & R & _).
+    repeat split; auto. unfold wire_of, connect_uri. simpl fst. now rewrite Hf, Hs, Hn.
   Qed.
 
   (* needs the [_tls-any] build: see [build_without_tls_is_plaintext] *)
   Theorem no_plaintext_fallback : forall f e srv,
-    f_tls f = true -> is_https (e_scheme e) = true -> connect_outcome rc f e srv <> ConnPlain.
+    f_tls f = true -> is_https (e_scheme e) = true ->
+    connect_outcome rc f e srv <> ConnPlain /\
+    request_channel (connect_outcome rc f e srv) <> Some ChPlain /\
+    wire_of f e <> 2.
   Proof.
-    intros f e srv Hf Hs. unfold connect_outcome. rewrite Hf, Hs. simpl.
-    destruct (e_tls e) as [t|]; [apply tls_connect_never_plain|discriminate].
+    intros f e srv Hf Hs.
+    assert (A : connect_outcome rc f e srv <> ConnPlain).
+    { unfold connect_outcome, connect_uri. simpl fst. rewrite Hf, Hs. simpl.
+      destruct (e_tls e) as [t|]; [apply tls_connect_never_plain|discriminate]. }
+    split; [exact A|]. split.
+    - destruct (connect_outcome rc f e srv); simpl; try discriminate. now elim A.
+    - unfold wire_of, connect_uri. simpl fst. rewrite Hf, Hs. simpl.
+      destruct (e_tls e); discriminate.
   Qed.
 
   (* the build assumption, stated: without any TLS feature the [is_https] branch is not
@@ -115,10 +282,10 @@ Section Laws.
     call_transmitted (connect_outcome rc f e srv) = true /\
     exists pc, server_handshake rc ra f e srv = SrvAccept pc.
   Proof.
-    intros f e srv H. unfold request_reaches_handler in H.
-    destruct (server_handshake rc ra f e srv) as [|pc]; [discriminate|].
-    split; [|now exists pc].
-    destruct srv; destruct (connect_outcome rc f e _); try discriminate; reflexivity.
+    intros f e srv H. apply reaches_iff in H. destruct H as (io & Hy & Hc).
+    split; [unfold call_transmitted; now rewrite Hc|].
+    unfold listener_yields in Hy. unfold server_handshake. destruct srv as [|a]; [now exists None|].
+    destruct (tls_accept_task rc ra f e a) as [|pc]; [discriminate|now exists pc].
   Qed.
 
   Lemma reaches_implies_transmitted : forall f e srv,
@@ -136,93 +303,167 @@ Section Laws.
       as (t & a & alpn & _ & Hsrv & _). discriminate.
   Qed.
 
-  (* a plaintext client is never served by a TLS listener *)
+  (* a plaintext client is never served by a TLS listener: its accept task fails *)
   Theorem plaintext_client_not_served_by_tls_listener : forall f e a,
     f_tls f && is_https (e_scheme e) = false ->
+    listener_yields rc ra f e (STls a) = None /\
     request_reaches_handler rc ra f e (STls a) = false.
   Proof.
-    intros f e a H. unfold request_reaches_handler, server_handshake. now rewrite H.
+    intros f e a H.
+    assert (Y : listener_yields rc ra f e (STls a) = None).
+    { unfold listener_yields, tls_accept_task, connect_uri. simpl fst. now rewrite H. }
+    split; [exact Y|]. unfold request_reaches_handler, handler_io. now rewrite Y.
   Qed.
 
   (* ---------------------------------------------------------------- configuration -> connector *)
-  Lemma tls_connector_new_spec : forall f certs anchors (ident : option cert) d assume wn ww
+  Lemma add_ca_certs_spec : forall (cas : list (list (pem_sec ca))) roots r,
+    add_ca_certs roots cas = inr r ->
+    r = roots ++ flat_map pem_certs cas /\ forallb pem_decodes cas = true.
+  Proof.
+    induction cas as [|c cas IH]; simpl; intros roots r H.
+    - injection H as <-. now rewrite app_nil_r.
+    - destruct (convert_certificate c) as [ders|] eqn:C; [|discriminate].
+      destruct (convert_certificate_some _ _ C) as [D E].
+      destruct (IH _ _ H) as [-> F]. rewrite E, D, F. split; [now rewrite app_assoc|reflexivity].
+  Qed.
+
+  Lemma add_ca_certs_err : forall (cas : list (list (pem_sec ca))) roots e,
+    add_ca_certs roots cas = inl e ->
+    e = ECertificateParse /\ exists blob, In blob cas /\ pem_decodes blob = false.
+  Proof.
+    induction cas as [|c cas IH]; simpl; intros roots e H; [discriminate|].
+    destruct (convert_certificate c) as [ders|] eqn:C.
+    - destruct (IH _ _ H) as [-> (b & Hb & Db)]. split; [reflexivity|]. exists b. auto.
+    - injection H as <-. split; [reflexivity|]. exists c. split; [now left|].
+      now apply convert_certificate_none.
+  Qed.
+
+  Lemma tls_connector_new_spec : forall f certs anchors (ident : option (Identity cert)) d assume wn ww
       (t : @TlsConnector cert ca dname),
-    tls_connector_new valid_name native_certs webpki_roots f certs anchors ident d assume wn ww = inr t ->
+    tls_connector_new valid_name key_matches native_certs webpki_roots f certs anchors ident d assume wn ww = inr t ->
     tc_roots t = anchors
                  ++ (if f_native_roots f && wn then native_certs else [])
                  ++ (if f_webpki_roots f && ww then webpki_roots else [])
-                 ++ certs /\
-    tc_identity t = ident /\ tc_alpn t = [ALPN_H2] /\ tc_domain t = d /\
+                 ++ flat_map pem_certs certs /\
+    forallb pem_decodes certs = true /\
+    tc_identity t = identity_leaf key_matches ident /\
+    (ident <> None -> tc_identity t <> None) /\
+    tc_alpn t = [ALPN_H2] /\ tc_domain t = d /\
     tc_assume_http2 t = assume /\ valid_name d = true.
   Proof.
     intros f certs anchors ident d assume wn ww t H. unfold tls_connector_new in H.
-    destruct (f_native_roots f && wn) eqn:N.
-    - destruct native_certs as [|n0 nl] eqn:NC; [discriminate|].
-      destruct (valid_name d) eqn:V; [|discriminate]. injection H as <-. simpl.
-      destruct (f_webpki_roots f && ww); simpl; repeat split; auto;
-        now rewrite <- ?app_assoc, ?app_nil_r.
-    - destruct (valid_name d) eqn:V; [|discriminate]. injection H as <-. simpl.
-      destruct (f_webpki_roots f && ww); simpl; repeat split; auto;
-        now rewrite <- ?app_assoc, ?app_nil_r.
+    set (r1 := anchors ++ (if f_native_roots f && wn then native_certs else [])).
+    assert (H1 : (if f_native_roots f && wn
+                  then match native_certs with [] => inl ENativeCertsNotFound | _ => inr (anchors ++ native_certs) end
+                  else inr anchors) = inr r1 \/
+                 exists e, (if f_native_roots f && wn
+                  then match native_certs with [] => inl ENativeCertsNotFound | _ => inr (anchors ++ native_certs) end
+                  else inr anchors) = @inl cfg_err (list ca) e).
+    { unfold r1. destruct (f_native_roots f && wn).
+      - destruct native_certs; [right; now eexists|now left].
+      - left. now rewrite app_nil_r. }
+    destruct H1 as [H1|(e & H1)]; rewrite H1 in H; [|discriminate].
+    set (r2 := if f_webpki_roots f && ww then r1 ++ webpki_roots else r1) in H.
+    destruct (add_ca_certs r2 certs) as [e|r3] eqn:A; [discriminate|].
+    destruct (add_ca_certs_spec _ _ _ A) as [-> Dec].
+    assert (Hid : forall cc, (match ident with
+                   | Some id => match certified_key key_matches id with
+                                | inl e => inl e | inr leaf => inr (Some leaf) end
+                   | None => inr None end) = @inr cfg_err _ cc ->
+                  cc = identity_leaf key_matches ident /\ (ident <> None -> cc <> None)).
+    { intros cc Hc. destruct ident as [id|]; simpl.
+      - destruct (certified_key key_matches id) as [e|leaf]; [discriminate|].
+        injection Hc as <-. split; [reflexivity|discriminate].
+      - injection Hc as <-. split; [reflexivity|]. intro X. now elim X. }
+    destruct (match ident with Some id => _ | None => _ end) as [e|cc] eqn:I; [discriminate|].
+    destruct (Hid cc eq_refl) as [-> Hne].
+    destruct (valid_name d) eqn:V; [|discriminate]. injection H as <-. simpl.
+    repeat split; auto.
+    unfold r2, r1. destruct (f_webpki_roots f && ww); now rewrite <- ?app_assoc, ?app_nil_r.
   Qed.
 
-  (* whatever the endpoint looked like before (origin set or not): the name comes from the
-     configuration or else from the endpoint URI's host *)
+  (* whatever the endpoint looked like before (origin set or not, an earlier connector or not):
+     the name comes from the configuration or else from the endpoint URI's host; the result
+     holds the connector of THIS configuration *)
   Theorem tls_config_wiring_gen : forall f (e0 : @Endpoint cert ca dname) c e,
-    endpoint_tls_config valid_name native_certs webpki_roots f e0 c = inr e ->
-    e_scheme e = e_scheme e0 /\ e_host e = e_host e0 /\ e_origin e = e_origin e0 /\
+    endpoint_tls_config valid_name key_matches native_certs webpki_roots f e0 c = inr e ->
+    e_uds e0 = false /\
+    e_uds e = e_uds e0 /\ e_scheme e = e_scheme e0 /\ e_host e = e_host e0 /\ e_origin e = e_origin e0 /\
     exists t d, e_tls e = Some t /\
       effective_domain c (e_host e0) = Some d /\ valid_name d = true /\ tc_domain t = d /\
       tc_roots t = configured_roots native_certs webpki_roots f c /\
-      tc_identity t = c_identity c /\ tc_assume_http2 t = c_assume_http2 c /\
+      forallb pem_decodes (c_certs c) = true /\
+      tc_identity t = identity_leaf key_matches (c_identity c) /\
+      (c_identity c <> None -> tc_identity t <> None) /\
+      tc_assume_http2 t = c_assume_http2 c /\
       tc_alpn t = [ALPN_H2].
   Proof.
-    intros f e0 c e H. unfold endpoint_tls_config, into_tls_connector in H.
+    intros f e0 c e H. unfold endpoint_tls_config in H.
+    destruct (e_uds e0) eqn:U; [discriminate|]. unfold into_tls_connector in H.
     fold (effective_domain c (e_host e0)) in H.
     destruct (effective_domain c (e_host e0)) as [d|] eqn:D; [|discriminate].
-    destruct (tls_connector_new _ _ _ _ _ _ _ _ _ _ _) as [err|t] eqn:T; [discriminate|].
+    destruct (tls_connector_new _ _ _ _ _ _ _ _ _ _ _ _) as [err|t] eqn:T; [discriminate|].
     injection H as <-. simpl. repeat split.
-    destruct (tls_connector_new_spec _ _ _ _ _ _ _ _ _ T) as (Hr & Hi & Ha & Hd & Hh & Hv).
+    destruct (tls_connector_new_spec _ _ _ _ _ _ _ _ _ T) as (Hr & Hdec & Hi & Hne & Ha & Hd & Hh & Hv).
     exists t, d. repeat split; auto.
   Qed.
 
-  (* Endpoint::origin changes neither the URI nor the connector *)
-  Lemma apply_origin_keeps : forall o (e : @Endpoint cert ca dname),
-    e_scheme (apply_origin o e) = e_scheme e /\ e_host (apply_origin o e) = e_host e /\
-    e_tls (apply_origin o e) = e_tls e.
-  Proof. intros [x|] e; repeat split. Qed.
-
-  Lemma origin_irrelevant_connect : forall f o e srv,
-    connect_outcome rc f (apply_origin o e) srv = connect_outcome rc f e srv.
-  Proof. intros f [x|] e srv; reflexivity. Qed.
-  Lemma origin_irrelevant_handler : forall f o e srv,
-    request_reaches_handler rc ra f (apply_origin o e) srv = request_reaches_handler rc ra f e srv.
-  Proof. intros f [x|] e srv; reflexivity. Qed.
-  Lemma origin_irrelevant_peer_certs : forall f o e srv,
-    peer_certs_exposed rc ra f (apply_origin o e) srv = peer_certs_exposed rc ra f e srv.
-  Proof. intros f [x|] e srv; reflexivity. Qed.
-
   Theorem tls_config_wiring : forall f s h (c : @ClientTlsConfig cert ca dname) e,
-    endpoint_tls_config valid_name native_certs webpki_roots f (endpoint_from_uri s h) c = inr e ->
+    endpoint_tls_config valid_name key_matches native_certs webpki_roots f (endpoint_from_uri s h) c = inr e ->
     e_scheme e = s /\
     exists t d, e_tls e = Some t /\
       effective_domain c h = Some d /\ valid_name d = true /\ tc_domain t = d /\
       tc_roots t = configured_roots native_certs webpki_roots f c /\
-      tc_identity t = c_identity c /\ tc_assume_http2 t = c_assume_http2 c /\
+      tc_identity t = identity_leaf key_matches (c_identity c) /\
+      tc_assume_http2 t = c_assume_http2 c /\
       tc_alpn t = [ALPN_H2].
   Proof.
-    intros f s h c e H. unfold endpoint_tls_config, into_tls_connector in H. simpl in H.
-    fold (effective_domain c h) in H.
-    destruct (effective_domain c h) as [d|] eqn:D; [|discriminate].
-    destruct (tls_connector_new _ _ _ _ _ _ _ _ _ _ _) as [err|t] eqn:T; [discriminate|].
-    injection H as <-. simpl. split; [reflexivity|].
-    destruct (tls_connector_new_spec _ _ _ _ _ _ _ _ _ T) as (Hr & Hi & Ha & Hd & Hh & Hv).
-    exists t, d. repeat split; auto.
+    intros f s h c e H.
+    destruct (tls_config_wiring_gen _ _ _ _ H)
+      as (_ & _ & Hs & _ & _ & t & d & Ht & Hd & Hv & Hdom & Hr & _ & Hi & _ & Has & Hal).
+    split; [exact Hs|]. exists t, d. repeat split; auto.
   Qed.
+
+  (* tls_config on a unix-socket endpoint is refused *)
+  Lemma tls_config_uds : forall f (e0 : @Endpoint cert ca dname) c,
+    e_uds e0 = true ->
+    endpoint_tls_config valid_name key_matches native_certs webpki_roots f e0 c = inl EInvalidTlsConfigForUds.
+  Proof. intros f e0 c U. unfold endpoint_tls_config. now rewrite U. Qed.
+
+  (* Endpoint::origin changes what requests say about themselves and nothing else: not the URI
+     the connector is called with, not the connector *)
+  Lemma apply_origin_keeps : forall o (e : @Endpoint cert ca dname),
+    e_uds (apply_origin o e) = e_uds e /\
+    e_scheme (apply_origin o e) = e_scheme e /\ e_host (apply_origin o e) = e_host e /\
+    e_tls (apply_origin o e) = e_tls e /\ connect_uri (apply_origin o e) = connect_uri e.
+  Proof. intros [x|] e; repeat split. Qed.
+
+  Lemma request_target_origin : forall x (e : @Endpoint cert ca dname),
+    request_target (apply_origin (Some x) e) = x /\
+    request_target (apply_origin None e) = request_target e /\
+    (e_origin e = None -> request_target e = connect_uri e).
+  Proof. intros x e. repeat split. intro H. unfold request_target. now rewrite H. Qed.
+
+  Lemma origin_irrelevant_connect : forall f o e srv,
+    connect_outcome rc f (apply_origin o e) srv = connect_outcome rc f e srv.
+  Proof. intros f [x|] e srv; reflexivity. Qed.
+  Lemma origin_irrelevant_handler_io : forall f o e srv,
+    handler_io rc ra f (apply_origin o e) srv = handler_io rc ra f e srv.
+  Proof. intros f [x|] e srv; reflexivity. Qed.
+
+  (* the origin decides the target of the requests and only that *)
+  Theorem origin_only_names_requests : forall f o e srv,
+    request_target (apply_origin (Some o) e) = o /\
+    connect_uri (apply_origin (Some o) e) = connect_uri e /\
+    connect_outcome rc f (apply_origin (Some o) e) srv = connect_outcome rc f e srv /\
+    request_reaches_handler rc ra f (apply_origin (Some o) e) srv = request_reaches_handler rc ra f e srv /\
+    peer_certs_exposed rc ra f (apply_origin (Some o) e) srv = peer_certs_exposed rc ra f e srv /\
+    wire_of f (apply_origin (Some o) e) = wire_of f e.
+  Proof. intros f o e srv. repeat split. Qed.
 
   Lemma configured_roots_no_flags : forall f (c : @ClientTlsConfig cert ca dname),
     c_with_native_roots c = false -> c_with_webpki_roots c = false ->
-    configured_roots native_certs webpki_roots f c = c_trust_anchors c ++ c_certs c.
+    configured_roots native_certs webpki_roots f c = c_trust_anchors c ++ flat_map pem_certs (c_certs c).
   Proof.
     intros f c N W. unfold configured_roots. rewrite N, W.
     now rewrite !andb_false_r.
@@ -230,14 +471,15 @@ Section Laws.
 
   Lemma configured_roots_no_features : forall f (c : @ClientTlsConfig cert ca dname),
     f_native_roots f = false -> f_webpki_roots f = false ->
-    configured_roots native_certs webpki_roots f c = c_trust_anchors c ++ c_certs c.
+    configured_roots native_certs webpki_roots f c = c_trust_anchors c ++ flat_map pem_certs (c_certs c).
   Proof. intros f c N W. unfold configured_roots. now rewrite N, W. Qed.
 
-  (* every root comes from the configuration, or from a root set the caller switched on AND the
-     build contains *)
+  (* every root comes from the configuration (a trust anchor, or a certificate inside one of
+     the CA blobs), or from a root set the caller switched on AND the build contains *)
   Lemma configured_roots_origin : forall f (c : @ClientTlsConfig cert ca dname) r,
     In r (configured_roots native_certs webpki_roots f c) ->
-    In r (c_trust_anchors c) \/ In r (c_certs c) \/
+    In r (c_trust_anchors c) \/
+    (exists blob, In blob (c_certs c) /\ In (SecCert r) blob) \/
     (f_native_roots f = true /\ c_with_native_roots c = true /\ In r native_certs) \/
     (f_webpki_roots f = true /\ c_with_webpki_roots c = true /\ In r webpki_roots).
   Proof.
@@ -246,9 +488,13 @@ Section Laws.
     apply in_app_or in H. destruct H as [H|H].
     - destruct (f_native_roots f) eqn:A, (c_with_native_roots c) eqn:B; simpl in H; try contradiction.
       right; right; left. auto.
-    - apply in_app_or in H. destruct H as [H|H]; [|now right; left].
-      destruct (f_webpki_roots f) eqn:A, (c_with_webpki_roots c) eqn:B; simpl in H; try contradiction.
-      right; right; right. auto.
+    - apply in_app_or in H. destruct H as [H|H].
+      + destruct (f_webpki_roots f) eqn:A, (c_with_webpki_roots c) eqn:B; simpl in H; try contradiction.
+        right; right; right. auto.
+      + right; left. apply in_flat_map in H. destruct H as (blob & Hb & Hr).
+        exists blob. split; [exact Hb|]. unfold pem_certs in Hr. apply in_flat_map in Hr.
+        destruct Hr as ([x| |] & Hx & Hin); simpl in Hin; try contradiction.
+        destruct Hin as [<-|[]]. exact Hx.
   Qed.
 
   (* with_enabled_roots forgets everything that was configured before it *)
@@ -259,45 +505,75 @@ Section Laws.
   Proof. intros; repeat split. Qed.
 
   (* ---------------------------------------------------------------- server configuration -> acceptor *)
+  Lemma client_verifier_of_spec : forall (blob : option (list (pem_sec ca))) optional v,
+    client_verifier_of blob optional = inr v ->
+    match blob with
+    | None => v = NoClientAuth
+    | Some b => pem_decodes b = true /\ pem_certs b <> [] /\ v = WebPki (pem_certs b) optional
+    end.
+  Proof.
+    intros [b|] optional v H; unfold client_verifier_of in H; [|now injection H as <-].
+    destruct (convert_certificate b) as [ders|] eqn:C; [|discriminate].
+    destruct (convert_certificate_some _ _ C) as [D E]. rewrite E in H.
+    destruct (pem_certs b) as [|r rs] eqn:P; [discriminate|].
+    injection H as <-. split; [exact D|]. split; [discriminate|]. now destruct optional.
+  Qed.
+
   Lemma tls_acceptor_spec : forall (s : @ServerTlsConfig cert ca) a,
-    tls_acceptor ca_usable s = AccOk a ->
-    s_identity s = Some (a_cert a) /\ a_alpn a = [ALPN_H2] /\
+    tls_acceptor key_matches s = AccOk a ->
+    (exists id, s_identity s = Some id /\ certified_key key_matches id = inr (a_cert a)) /\
+    a_alpn a = [ALPN_H2] /\
     a_verifier a = match s_client_ca_root s with
                    | None => NoClientAuth
-                   | Some root => WebPki root (s_client_auth_optional s)
-                   end.
+                   | Some blob => WebPki (pem_certs blob) (s_client_auth_optional s)
+                   end /\
+    match s_client_ca_root s with
+    | None => True
+    | Some blob => pem_decodes blob = true /\ pem_certs blob <> []
+    end.
   Proof.
     intros s a H. unfold tls_acceptor in H.
     destruct (s_identity s) as [id|]; [|discriminate].
-    destruct (s_client_ca_root s) as [root|].
-    - destruct (ca_usable root); [|discriminate]. injection H as <-. simpl.
-      repeat split. now destruct (s_client_auth_optional s).
-    - injection H as <-. simpl. repeat split.
+    destruct (client_verifier_of (s_client_ca_root s) (s_client_auth_optional s)) as [e|v] eqn:V; [discriminate|].
+    destruct (certified_key key_matches id) as [e|leaf] eqn:K; [discriminate|].
+    injection H as <-. simpl. apply client_verifier_of_spec in V.
+    split; [now exists id|]. split; [reflexivity|].
+    destruct (s_client_ca_root s) as [b|]; [destruct V as (D & N & ->)|]; auto.
   Qed.
 
   Lemma tls_acceptor_panics_iff : forall (s : @ServerTlsConfig cert ca),
-    tls_acceptor ca_usable s = AccPanic <-> s_identity s = None.
+    tls_acceptor key_matches s = AccPanic <-> s_identity s = None.
   Proof.
-    intro s. unfold tls_acceptor. destruct (s_identity s); split; intro H; try discriminate; try reflexivity.
-    destruct (s_client_ca_root s) as [root|]; [destruct (ca_usable root)|]; discriminate.
+    intro s. unfold tls_acceptor. destruct (s_identity s) as [id|]; split; intro H; try discriminate; try reflexivity.
+    destruct (client_verifier_of _ _); [discriminate|].
+    destruct (certified_key key_matches id); discriminate.
+  Qed.
+
+  (* a client CA blob in which nothing is a certificate never yields a server *)
+  Lemma tls_acceptor_needs_a_root : forall (s : @ServerTlsConfig cert ca) blob,
+    s_client_ca_root s = Some blob -> pem_certs blob = [] ->
+    forall a, tls_acceptor key_matches s <> AccOk a.
+  Proof.
+    intros s blob Hb He a H. destruct (tls_acceptor_spec _ _ H) as (_ & _ & _ & R).
+    rewrite Hb in R. destruct R as [_ R]. now elim R.
   Qed.
 
   (* ---------------------------------------------------------------- the Server builder keeps the acceptor *)
   Lemma server_build_app : forall l1 l2 (s : @Server cert ca),
-    server_build ca_usable s (l1 ++ l2) =
-    match server_build ca_usable s l1 with
-    | BuildOk s' => server_build ca_usable s' l2
+    server_build key_matches s (l1 ++ l2) =
+    match server_build key_matches s l1 with
+    | BuildOk s' => server_build key_matches s' l2
     | x => x
     end.
   Proof.
     induction l1 as [|o l1 IH]; intros l2 s; simpl; [reflexivity|].
     destruct o as [opt| |c]; try apply IH.
-    destruct (server_tls_config ca_usable s c); try reflexivity. apply IH.
+    destruct (server_tls_config key_matches s c); try reflexivity. apply IH.
   Qed.
 
   Lemma server_build_keeps_tls : forall ops (s : @Server cert ca),
     Forall not_tls_op ops ->
-    exists s', server_build ca_usable s ops = BuildOk s' /\ sv_tls s' = sv_tls s.
+    exists s', server_build key_matches s ops = BuildOk s' /\ sv_tls s' = sv_tls s.
   Proof.
     induction ops as [|o ops IH]; intros s H; simpl; [now exists s|].
     inversion H as [|? ? Ho Hr]; subst.
@@ -306,12 +582,57 @@ Section Laws.
     - destruct (IH (server_layer s) Hr) as (s' & E & T). now exists s'.
   Qed.
 
+  (* ANY sequence of builder calls, tls_config any number of times anywhere: if the build
+     succeeds, the acceptor is the one of the LAST tls_config call (none: the one the builder
+     started with) *)
+  Lemma server_build_last_tls : forall ops (s sv : @Server cert ca),
+    server_build key_matches s ops = BuildOk sv ->
+    match last_tls ops with
+    | None => sv_tls sv = sv_tls s
+    | Some c => exists a, tls_acceptor key_matches c = AccOk a /\ sv_tls sv = Some a
+    end.
+  Proof.
+    induction ops as [|o ops IH]; intros s sv H; simpl in *.
+    - now injection H as <-.
+    - destruct o as [opt| |c].
+      + apply IH in H. destruct (last_tls ops); exact H.
+      + apply IH in H. destruct (last_tls ops); exact H.
+      + unfold server_tls_config in H.
+        destruct (tls_acceptor key_matches c) as [|e|a] eqn:A; try discriminate.
+        apply IH in H. destruct (last_tls ops) as [c'|]; [exact H|].
+        exists a. split; [exact A|]. exact H.
+  Qed.
+
+  Theorem builder_last_tls_wins : forall ops (sv : @Server cert ca),
+    server_build key_matches server_builder ops = BuildOk sv ->
+    match last_tls ops with
+    | None => server_listener sv = SPlain
+    | Some c => exists a, tls_acceptor key_matches c = AccOk a /\ server_listener sv = STls a
+    end.
+  Proof.
+    intros ops sv H. apply server_build_last_tls in H. unfold server_listener.
+    destruct (last_tls ops) as [c|].
+    - destruct H as (a & A & T). exists a. now rewrite T.
+    - now rewrite H.
+  Qed.
+
+  Lemma last_tls_app_single : forall before after (c : @ServerTlsConfig cert ca),
+    Forall not_tls_op after -> last_tls (before ++ OpTls c :: after) = Some c.
+  Proof.
+    intros before after c Ha.
+    assert (L : last_tls after = None).
+    { induction Ha as [|o l Ho _ IH]; [reflexivity|]. destruct o; simpl; auto. contradiction. }
+    induction before as [|o before IH]; simpl.
+    - now rewrite L.
+    - destruct o; auto. now rewrite IH.
+  Qed.
+
   (* tls_config, then any other builder calls (layer, timeout, ...), before or after: the
      listener is the TLS listener of that configuration *)
   Theorem builder_preserves_tls : forall before after (c : @ServerTlsConfig cert ca) a,
     Forall not_tls_op before -> Forall not_tls_op after ->
-    tls_acceptor ca_usable c = AccOk a ->
-    exists sv, server_build ca_usable server_builder (before ++ OpTls c :: after) = BuildOk sv /\
+    tls_acceptor key_matches c = AccOk a ->
+    exists sv, server_build key_matches server_builder (before ++ OpTls c :: after) = BuildOk sv /\
                server_listener sv = STls a.
   Proof.
     intros before after c a Hb Ha Hacc. rewrite server_build_app.
@@ -326,7 +647,7 @@ Section Laws.
   (* without tls_config the listener is plaintext *)
   Lemma builder_without_tls_is_plain : forall (ops : list (@builder_op cert ca)),
     Forall not_tls_op ops ->
-    exists sv, server_build ca_usable server_builder ops = BuildOk sv /\ server_listener sv = SPlain.
+    exists sv, server_build key_matches server_builder ops = BuildOk sv /\ server_listener sv = SPlain.
   Proof.
     intros ops H. destruct (server_build_keeps_tls ops server_builder H) as (s & E & T).
     exists s. split; [exact E|]. unfold server_listener. now rewrite T.
@@ -336,86 +657,97 @@ Section Laws.
   Lemma reaches_tls_accepts : forall f e a,
     request_reaches_handler rc ra f e (STls a) = true ->
     exists pc, ra a (endpoint_identity e) = SrvAccept pc /\
+               handler_io rc ra f e (STls a) = Some (IoTls pc) /\
                peer_certs_exposed rc ra f e (STls a) = pc.
   Proof.
-    intros f e a H. unfold peer_certs_exposed. rewrite H.
-    unfold request_reaches_handler in H. unfold server_handshake in *. unfold endpoint_identity.
-    destruct (f_tls f && is_https (e_scheme e)); [|discriminate].
+    intros f e a H. apply reaches_iff in H. destruct H as (io & Hy & Hc).
+    assert (Hio : handler_io rc ra f e (STls a) = Some io) by now apply handler_io_iff.
+    unfold peer_certs_exposed. rewrite Hio.
+    unfold listener_yields, tls_accept_task, endpoint_identity in *.
+    destruct (f_tls f && is_https (fst (connect_uri e))); [|discriminate].
     destruct (e_tls e) as [t|]; [|discriminate].
     destruct (rc t (STls a)); [discriminate|].
-    destruct (ra a (tc_identity t)) as [|pc]; [discriminate|]. now exists pc.
+    destruct (ra a (tc_identity t)) as [|pc]; [discriminate|]. injection Hy as <-. now exists pc.
   Qed.
 
-  Theorem verifier_enforced : forall f e a root allow,
-    a_verifier a = WebPki root allow ->
+  Theorem verifier_enforced : forall f e a roots allow,
+    a_verifier a = WebPki roots allow ->
     request_reaches_handler rc ra f e (STls a) = true ->
-    (exists c, endpoint_identity e = Some c /\ client_cert_ok root c = true /\
-               peer_certs_exposed rc ra f e (STls a) = Some c) \/
+    (exists c r, endpoint_identity e = Some c /\ In r roots /\ client_cert_ok r c = true /\
+                 peer_certs_exposed rc ra f e (STls a) = Some c) \/
     (allow = true /\ endpoint_identity e = None /\ peer_certs_exposed rc ra f e (STls a) = None).
   Proof.
-    intros f e a root allow Hv H.
-    destruct (reaches_tls_accepts _ _ _ H) as (pc & Ha & Hp).
+    intros f e a roots allow Hv H.
+    destruct (reaches_tls_accepts _ _ _ H) as (pc & Ha & _ & Hp).
     pose proof (H_accept _ _ _ Ha) as L. rewrite Hv in L. rewrite Hp.
-    destruct L as [(c & Hi & -> & Hok)|(-> & Hi & ->)]; [left; exists c|right]; auto.
+    destruct L as [(c & r & Hi & -> & Hin & Hok)|(-> & Hi & ->)]; [left; exists c, r|right]; auto.
   Qed.
 
-  Theorem client_auth_enforced : forall f (s : @ServerTlsConfig cert ca) a root e,
-    tls_acceptor ca_usable s = AccOk a -> s_client_ca_root s = Some root ->
+  (* a server configured with a client CA blob serves only clients presenting a certificate
+     issued by one of the CAs IN THAT BLOB, unless client auth is optional and none is presented *)
+  Theorem client_auth_enforced : forall f (s : @ServerTlsConfig cert ca) a blob e,
+    tls_acceptor key_matches s = AccOk a -> s_client_ca_root s = Some blob ->
     request_reaches_handler rc ra f e (STls a) = true ->
-    (exists c, endpoint_identity e = Some c /\ client_cert_ok root c = true) \/
-    (s_client_auth_optional s = true /\ endpoint_identity e = None).
+    (exists c r, endpoint_identity e = Some c /\ In (SecCert r) blob /\ client_cert_ok r c = true /\
+                 peer_certs_exposed rc ra f e (STls a) = Some c) \/
+    (s_client_auth_optional s = true /\ endpoint_identity e = None /\
+     peer_certs_exposed rc ra f e (STls a) = None).
   Proof.
-    intros f s a root e Hacc Hroot H.
-    destruct (tls_acceptor_spec _ _ Hacc) as (_ & _ & Hv). rewrite Hroot in Hv.
-    destruct (verifier_enforced _ _ _ _ _ Hv H) as [(c & Hi & Hok & _)|(Ho & Hi & _)];
-      [left; exists c|right]; auto.
+    intros f s a blob e Hacc Hroot H.
+    destruct (tls_acceptor_spec _ _ Hacc) as (_ & _ & Hv & _). rewrite Hroot in Hv.
+    destruct (verifier_enforced _ _ _ _ _ Hv H) as [(c & r & Hi & Hin & Hok & Hp)|(Ho & Hi & Hp)];
+      [left; exists c, r|right]; auto.
+    repeat split; auto. unfold pem_certs in Hin. apply in_flat_map in Hin.
+    destruct Hin as ([x| |] & Hx & Hin); simpl in Hin; try contradiction.
+    destruct Hin as [<-|[]]. exact Hx.
   Qed.
 
-  (* the same through the builder: whatever else is called on the Server *)
-  Theorem built_server_enforces_client_auth : forall f before after c a root sv e,
-    Forall not_tls_op before -> Forall not_tls_op after ->
-    tls_acceptor ca_usable c = AccOk a -> s_client_ca_root c = Some root ->
-    server_build ca_usable server_builder (before ++ OpTls c :: after) = BuildOk sv ->
+  (* the same through the builder: whatever else is called on the Server, tls_config any
+     number of times: the LAST configuration is enforced *)
+  Theorem built_server_enforces_client_auth : forall f ops c blob sv e,
+    server_build key_matches server_builder ops = BuildOk sv ->
+    last_tls ops = Some c -> s_client_ca_root c = Some blob ->
     request_reaches_handler rc ra f e (server_listener sv) = true ->
     f_tls f && is_https (e_scheme e) = true /\
-    ((exists ci, endpoint_identity e = Some ci /\ client_cert_ok root ci = true) \/
+    ((exists ci r, endpoint_identity e = Some ci /\ In (SecCert r) blob /\ client_cert_ok r ci = true) \/
      (s_client_auth_optional c = true /\ endpoint_identity e = None)).
   Proof.
-    intros f before after c a root sv e Hb Ha Hacc Hroot Hbuild H.
-    destruct (builder_preserves_tls before after c a Hb Ha Hacc) as (sv' & E & L).
-    rewrite Hbuild in E. injection E as <-. rewrite L in H. split.
+    intros f ops c blob sv e Hbuild Hlast Hroot H.
+    pose proof (builder_last_tls_wins ops sv Hbuild) as L. rewrite Hlast in L.
+    destruct L as (a & Hacc & L). rewrite L in H. split.
     - destruct (f_tls f && is_https (e_scheme e)) eqn:G; [reflexivity|].
-      now rewrite (plaintext_client_not_served_by_tls_listener f e a G) in H.
-    - now apply (client_auth_enforced f c a root e).
+      destruct (plaintext_client_not_served_by_tls_listener f e a G) as [_ X]. congruence.
+    - destruct (client_auth_enforced f c a blob e Hacc Hroot H)
+        as [(ci & r & A & B & C & _)|(A & B & _)]; [left; exists ci, r|right]; auto.
   Qed.
 
   (* optional client authentication does not let a certificate of another CA through *)
-  Theorem bad_client_cert_always_rejected : forall f e a root allow c,
-    a_verifier a = WebPki root allow ->
-    endpoint_identity e = Some c -> client_cert_ok root c = false ->
+  Theorem bad_client_cert_always_rejected : forall f e a roots allow c,
+    a_verifier a = WebPki roots allow ->
+    endpoint_identity e = Some c -> (forall r, In r roots -> client_cert_ok r c = false) ->
     request_reaches_handler rc ra f e (STls a) = false.
   Proof.
-    intros f e a root allow c Hv Hi Hbad.
+    intros f e a roots allow c Hv Hi Hbad.
     destruct (request_reaches_handler rc ra f e (STls a)) eqn:R; [|reflexivity].
-    destruct (verifier_enforced _ _ _ _ _ Hv R) as [(c' & Hi' & Hok & _)|(_ & Hi' & _)];
-      rewrite Hi in Hi'; [injection Hi' as <-; congruence|discriminate].
+    destruct (verifier_enforced _ _ _ _ _ Hv R) as [(c' & r & Hi' & Hin & Hok & _)|(_ & Hi' & _)];
+      rewrite Hi in Hi'; [injection Hi' as <-; rewrite (Hbad r Hin) in Hok|]; discriminate.
   Qed.
 
   Theorem peer_certs_iff_presented : forall f e a,
     request_reaches_handler rc ra f e (STls a) = true ->
     forall c, peer_certs_exposed rc ra f e (STls a) = Some c <->
-              exists root allow, a_verifier a = WebPki root allow /\
-                endpoint_identity e = Some c /\ client_cert_ok root c = true.
+              exists roots allow r, a_verifier a = WebPki roots allow /\
+                endpoint_identity e = Some c /\ In r roots /\ client_cert_ok r c = true.
   Proof.
     intros f e a H c. split.
-    - intro Hp. destruct (a_verifier a) as [|root allow] eqn:Hv.
-      + destruct (reaches_tls_accepts _ _ _ H) as (pc & Ha & Hpc).
+    - intro Hp. destruct (a_verifier a) as [|roots allow] eqn:Hv.
+      + destruct (reaches_tls_accepts _ _ _ H) as (pc & Ha & _ & Hpc).
         pose proof (H_accept _ _ _ Ha) as L. rewrite Hv in L. congruence.
-      + destruct (verifier_enforced _ _ _ _ _ Hv H) as [(c' & Hi & Hok & Hp')|(_ & _ & Hp')];
+      + destruct (verifier_enforced _ _ _ _ _ Hv H) as [(c' & r & Hi & Hin & Hok & Hp')|(_ & _ & Hp')];
           rewrite Hp in Hp'; [|discriminate].
-        injection Hp' as <-. now exists root, allow.
-    - intros (root & allow & Hv & Hi & Hok).
-      destruct (verifier_enforced _ _ _ _ _ Hv H) as [(c' & Hi' & _ & Hp')|(_ & Hi' & _)];
+        injection Hp' as <-. now exists roots, allow, r.
+    - intros (roots & allow & r & Hv & Hi & Hin & Hok).
+      destruct (verifier_enforced _ _ _ _ _ Hv H) as [(c' & r' & Hi' & _ & _ & Hp')|(_ & Hi' & _)];
         rewrite Hi in Hi'; [|discriminate]. now injection Hi' as <-.
   Qed.
 
@@ -423,20 +755,66 @@ Section Laws.
     a_verifier a = NoClientAuth -> peer_certs_exposed rc ra f e (STls a) = None.
   Proof.
     intros f e a Hv. destruct (request_reaches_handler rc ra f e (STls a)) eqn:R.
-    - destruct (reaches_tls_accepts _ _ _ R) as (pc & Ha & Hp). rewrite Hp.
+    - destruct (reaches_tls_accepts _ _ _ R) as (pc & Ha & _ & Hp). rewrite Hp.
       pose proof (H_accept _ _ _ Ha) as L. now rewrite Hv in L.
-    - unfold peer_certs_exposed. now rewrite R.
+    - unfold peer_certs_exposed. unfold request_reaches_handler in R.
+      now destruct (handler_io rc ra f e (STls a)).
   Qed.
 
   (* no handler, no certificates *)
   Lemma peer_certs_only_for_handlers : forall f e srv,
     request_reaches_handler rc ra f e srv = false -> peer_certs_exposed rc ra f e srv = None.
-  Proof. intros f e srv H. unfold peer_certs_exposed. now rewrite H. Qed.
+  Proof.
+    intros f e srv H. unfold peer_certs_exposed. unfold request_reaches_handler in H.
+    now destruct (handler_io rc ra f e srv).
+  Qed.
 
-  (* Request::peer_certs *)
-  Lemma request_peer_certs_spec : forall (io_is_tcp : bool) (pc : option cert),
-    request_peer_certs io_is_tcp pc = if io_is_tcp then pc else None.
-  Proof. reflexivity. Qed.
+  (* ---------------------------------------------------------------- what the handler finds in its request *)
+  (* over a TLS listener the handler's request carries the connect info of the io and the
+     TlsConnectInfo around it, holding the session's peer certificates; Request::peer_certs finds
+     them iff the io's connect info is TcpConnectInfo *)
+  Theorem handler_sees_peer_certs : forall f e a t,
+    request_reaches_handler rc ra f e (STls a) = true ->
+    let exts := handler_exts rc ra t f e (STls a) in
+    exts = [ExtConn t; ExtTls t (peer_certs_exposed rc ra f e (STls a))] /\
+    ext_tls_certs t exts = Some (peer_certs_exposed rc ra f e (STls a)) /\
+    request_peer_certs exts = match t with
+                              | InfoTcp => peer_certs_exposed rc ra f e (STls a)
+                              | InfoOther => None
+                              end.
+  Proof.
+    intros f e a t H exts.
+    destruct (reaches_tls_accepts _ _ _ H) as (pc & _ & Hio & Hp).
+    assert (E : exts = [ExtConn t; ExtTls t pc]).
+    { unfold exts, handler_exts. now rewrite Hio. }
+    rewrite E, Hp. split; [reflexivity|].
+    unfold request_peer_certs, ext_tls_certs. destruct t; simpl; auto.
+  Qed.
+
+  (* over a plaintext listener there is no TlsConnectInfo of any type *)
+  Theorem plaintext_handler_sees_no_tls_info : forall f e t t',
+    ext_tls_certs t' (handler_exts rc ra t f e SPlain) = None /\
+    request_peer_certs (handler_exts rc ra t f e SPlain) = None.
+  Proof.
+    intros f e t t'. unfold handler_exts, handler_io. simpl.
+    destruct (io_delivers IoPlain _); split; reflexivity.
+  Qed.
+
+  (* whatever Request::peer_certs returns was the verified certificate of the connection *)
+  Theorem request_peer_certs_sound : forall f e srv t c,
+    request_peer_certs (handler_exts rc ra t f e srv) = Some c ->
+    t = InfoTcp /\ request_reaches_handler rc ra f e srv = true /\
+    peer_certs_exposed rc ra f e srv = Some c.
+  Proof.
+    intros f e srv t c H.
+    destruct (request_reaches_handler rc ra f e srv) eqn:R.
+    - destruct srv as [|a].
+      + destruct (plaintext_handler_sees_no_tls_info f e t InfoTcp) as [_ X]. congruence.
+      + destruct (handler_sees_peer_certs f e a t R) as (_ & _ & X). rewrite X in H.
+        destruct t; [auto|discriminate].
+    - unfold request_reaches_handler in R. unfold handler_exts in H.
+      destruct (handler_io rc ra f e srv); discriminate.
+  Qed.
 
   (* ---------------------------------------------------------------- session resumption *)
   Variable rr : @listener cert ca -> @ticket cert -> option (option cert).
@@ -491,8 +869,8 @@ Section Laws.
     In (l, SrvAccept pc) (combine ls (visits ra rr ident None ls)) ->
     match a_verifier (l_acc l) with
     | NoClientAuth => pc = None
-    | WebPki root allow =>
-        (exists c, ident = Some c /\ pc = Some c /\ client_cert_ok root c = true) \/
+    | WebPki roots allow =>
+        (exists c r, ident = Some c /\ pc = Some c /\ In r roots /\ client_cert_ok r c = true) \/
         (allow = true /\ ident = None /\ pc = None)
     end.
   Proof.
@@ -503,34 +881,34 @@ Section Laws.
 
   (* the stores of the listeners that tonic spawns are pairwise different *)
   Lemma spawn_from_stores : forall (cfgs : list (@ServerTlsConfig cert ca)) n (l : @listener cert ca),
-    In l (listeners (spawn_from ca_usable n cfgs)) -> (n <= l_store l)%nat.
+    In l (listeners (spawn_from key_matches n cfgs)) -> (n <= l_store l)%nat.
   Proof.
     induction cfgs as [|c r IH]; intros n l H; simpl in H; [contradiction|].
     apply in_app_or in H. destruct H as [H|H].
-    - destruct (tls_acceptor ca_usable c); simpl in H; try contradiction.
+    - destruct (tls_acceptor key_matches c); simpl in H; try contradiction.
       destruct H as [<-|[]]. simpl. lia.
     - apply IH in H. lia.
   Qed.
 
   Theorem spawn_servers_store_injective : forall (cfgs : list (@ServerTlsConfig cert ca)),
-    store_injective (listeners (spawn_servers ca_usable cfgs)).
+    store_injective (listeners (spawn_servers key_matches cfgs)).
   Proof.
     unfold spawn_servers. generalize O. intros n cfgs. revert n.
     induction cfgs as [|c r IH]; intros n l l' Hl Hl' E; simpl in *; [contradiction|].
     apply in_app_or in Hl. apply in_app_or in Hl'.
     destruct Hl as [Hl|Hl], Hl' as [Hl'|Hl'].
-    - destruct (tls_acceptor ca_usable c); simpl in *; try contradiction.
+    - destruct (tls_acceptor key_matches c); simpl in *; try contradiction.
       destruct Hl as [<-|[]]. destruct Hl' as [<-|[]]. reflexivity.
-    - destruct (tls_acceptor ca_usable c); simpl in *; try contradiction.
+    - destruct (tls_acceptor key_matches c); simpl in *; try contradiction.
       destruct Hl as [<-|[]]. apply spawn_from_stores in Hl'. simpl in E. lia.
-    - destruct (tls_acceptor ca_usable c); simpl in *; try contradiction.
+    - destruct (tls_acceptor key_matches c); simpl in *; try contradiction.
       destruct Hl' as [<-|[]]. apply spawn_from_stores in Hl. simpl in E. lia.
     - now apply (IH (S n)).
   Qed.
 
   (* for the listeners tonic spawns (one ServerConfig, hence one store, per tls_acceptor call) *)
   Theorem resumption_transparent_spawned : forall (cfgs : list (@ServerTlsConfig cert ca)) ident ls,
-    Forall (fun l => In l (listeners (spawn_servers ca_usable cfgs))) ls ->
+    Forall (fun l => In l (listeners (spawn_servers key_matches cfgs))) ls ->
     visits ra rr ident None ls = map (fun l => ra (l_acc l) ident) ls.
   Proof.
     intros cfgs ident ls H.
@@ -538,12 +916,12 @@ Section Laws.
   Qed.
 
   Theorem no_cross_server_resumption_spawned : forall (cfgs : list (@ServerTlsConfig cert ca)) ident ls l pc,
-    Forall (fun l => In l (listeners (spawn_servers ca_usable cfgs))) ls ->
+    Forall (fun l => In l (listeners (spawn_servers key_matches cfgs))) ls ->
     In (l, SrvAccept pc) (combine ls (visits ra rr ident None ls)) ->
     match a_verifier (l_acc l) with
     | NoClientAuth => pc = None
-    | WebPki root allow =>
-        (exists c, ident = Some c /\ pc = Some c /\ client_cert_ok root c = true) \/
+    | WebPki roots allow =>
+        (exists c r, ident = Some c /\ pc = Some c /\ In r roots /\ client_cert_ok r c = true) \/
         (allow = true /\ ident = None /\ pc = None)
     end.
   Proof.
@@ -552,10 +930,57 @@ Section Laws.
   Qed.
 
   (* ---------------------------------------------------------------- end to end, from the two configurations *)
+  (* [e00]: any Uri endpoint for https://h, whatever was done to it before (origin set, an
+     earlier tls_config): tls_config(c), then origin again; a handler ran => everything *)
+  Theorem served_over_https_implies_all_gen : forall f (e00 : @Endpoint cert ca dname) o_after
+      (c : @ClientTlsConfig cert ca dname) e0 srv,
+    f_tls f = true -> e_scheme e00 = Https ->
+    endpoint_tls_config valid_name key_matches native_certs webpki_roots f e00 c = inr e0 ->
+    let e := apply_origin o_after e0 in
+    request_reaches_handler rc ra f e srv = true ->
+    exists a d alpn,
+      srv = STls a /\ effective_domain c (e_host e00) = Some d /\
+      chain_ok (configured_roots native_certs webpki_roots f c) (a_cert a) = true /\
+      name_ok d (a_cert a) = true /\
+      connect_outcome rc f e srv = ConnTls alpn /\
+      (alpn = Some ALPN_H2 \/ c_assume_http2 c = true) /\
+      match a_verifier a with
+      | NoClientAuth => peer_certs_exposed rc ra f e srv = None
+      | WebPki roots allow =>
+          (exists ci r, identity_leaf key_matches (c_identity c) = Some ci /\
+                        In r roots /\ client_cert_ok r ci = true /\
+                        peer_certs_exposed rc ra f e srv = Some ci) \/
+          (allow = true /\ c_identity c = None /\ peer_certs_exposed rc ra f e srv = None)
+      end.
+  Proof.
+    intros f e00 oa c e0 srv Hf Hs00 Hcfg e H.
+    destruct (tls_config_wiring_gen _ _ _ _ Hcfg)
+      as (_ & _ & Hs & _ & _ & t & d & Ht & Hd & _ & Hdom & Hr & _ & Hi & Hne & Has & _).
+    destruct (apply_origin_keeps oa e0) as (_ & Ls & _ & Lt & _). fold e in Ls, Lt.
+    rewrite Ht in Lt. rename Lt into Ht'. clear Ht. rename Ht' into Ht.
+    assert (Hhttps : is_https (e_scheme e) = true) by now rewrite Ls, Hs, Hs00.
+    destruct (call_sent_implies_authenticated f e srv Hf Hhttps (reaches_implies_transmitted _ _ _ H))
+      as (t' & a & alpn & Ht' & -> & Hc & Hch & Hn & Hh).
+    rewrite Ht in Ht'. injection Ht' as <-.
+    assert (Hid : endpoint_identity e = identity_leaf key_matches (c_identity c)).
+    { unfold endpoint_identity. now rewrite Ht. }
+    subst d. rewrite Hr in Hch. rewrite Has in Hh.
+    exists a, (tc_domain t), alpn.
+    split; [reflexivity|]. split; [exact Hd|]. split; [exact Hch|]. split; [exact Hn|].
+    split; [exact Hc|]. split; [exact Hh|].
+    destruct (a_verifier a) as [|roots allow] eqn:Hv.
+    - now apply no_verifier_no_peer_certs.
+    - destruct (verifier_enforced _ _ _ _ _ Hv H) as [(ci & r & A & B & C & D)|(A & B & C)].
+      + left. exists ci, r. rewrite <- Hid. auto.
+      + right. repeat split; auto.
+        destruct (c_identity c) as [id|] eqn:I; [|reflexivity].
+        exfalso. apply Hne; [discriminate|]. unfold endpoint_identity in B. now rewrite Ht in B.
+  Qed.
+
   Theorem served_over_https_implies_all_o : forall f o_before o_after h
       (c : @ClientTlsConfig cert ca dname) e0 srv,
     f_tls f = true ->
-    endpoint_tls_config valid_name native_certs webpki_roots f
+    endpoint_tls_config valid_name key_matches native_certs webpki_roots f
       (apply_origin o_before (endpoint_from_uri Https h)) c = inr e0 ->
     let e := apply_origin o_after e0 in
     request_reaches_handler rc ra f e srv = true ->
@@ -567,37 +992,22 @@ Section Laws.
       (alpn = Some ALPN_H2 \/ c_assume_http2 c = true) /\
       match a_verifier a with
       | NoClientAuth => peer_certs_exposed rc ra f e srv = None
-      | WebPki root allow =>
-          (exists ci, c_identity c = Some ci /\ client_cert_ok root ci = true /\
-                      peer_certs_exposed rc ra f e srv = Some ci) \/
+      | WebPki roots allow =>
+          (exists ci r, identity_leaf key_matches (c_identity c) = Some ci /\
+                        In r roots /\ client_cert_ok r ci = true /\
+                        peer_certs_exposed rc ra f e srv = Some ci) \/
           (allow = true /\ c_identity c = None /\ peer_certs_exposed rc ra f e srv = None)
       end.
   Proof.
     intros f ob oa h c e0 srv Hf Hcfg e H.
-    destruct (tls_config_wiring_gen _ _ _ _ Hcfg)
-      as (Hs & Hh0 & _ & t & d & Ht & Hd & _ & Hdom & Hr & Hi & Has & _).
-    destruct (apply_origin_keeps ob (endpoint_from_uri Https h)) as (Ks & Kh & _).
-    rewrite Kh in Hd. simpl in Hd. rewrite Ks in Hs. simpl in Hs.
-    destruct (apply_origin_keeps oa e0) as (Ls & _ & Lt). fold e in Ls, Lt.
-    rewrite Ht in Lt. rename Lt into Ht'. clear Ht. rename Ht' into Ht.
-    assert (Hhttps : is_https (e_scheme e) = true) by now rewrite Ls, Hs.
-    destruct (call_sent_implies_authenticated f e srv Hf Hhttps (reaches_implies_transmitted _ _ _ H))
-      as (t' & a & alpn & Ht' & -> & Hc & Hch & Hn & Hh).
-    rewrite Ht in Ht'. injection Ht' as <-.
-    assert (Hid : endpoint_identity e = c_identity c).
-    { unfold endpoint_identity. now rewrite Ht. }
-    subst d. rewrite Hr in Hch. rewrite Has in Hh.
-    exists a, (tc_domain t), alpn.
-    split; [reflexivity|]. split; [exact Hd|]. split; [exact Hch|]. split; [exact Hn|].
-    split; [exact Hc|]. split; [exact Hh|].
-    destruct (a_verifier a) as [|root allow] eqn:Hv.
-    - now apply no_verifier_no_peer_certs.
-    - rewrite <- Hid. now apply verifier_enforced.
+    destruct (apply_origin_keeps ob (endpoint_from_uri Https h)) as (_ & Ks & Kh & _).
+    pose proof (served_over_https_implies_all_gen f _ oa c e0 srv Hf Ks Hcfg H) as G.
+    rewrite Kh in G. exact G.
   Qed.
 
   Theorem served_over_https_implies_all : forall f h (c : @ClientTlsConfig cert ca dname) e srv,
     f_tls f = true ->
-    endpoint_tls_config valid_name native_certs webpki_roots f (endpoint_from_uri Https h) c = inr e ->
+    endpoint_tls_config valid_name key_matches native_certs webpki_roots f (endpoint_from_uri Https h) c = inr e ->
     request_reaches_handler rc ra f e srv = true ->
     exists a d alpn,
       srv = STls a /\ effective_domain c h = Some d /\
@@ -607,9 +1017,10 @@ Section Laws.
       (alpn = Some ALPN_H2 \/ c_assume_http2 c = true) /\
       match a_verifier a with
       | NoClientAuth => peer_certs_exposed rc ra f e srv = None
-      | WebPki root allow =>
-          (exists ci, c_identity c = Some ci /\ client_cert_ok root ci = true /\
-                      peer_certs_exposed rc ra f e srv = Some ci) \/
+      | WebPki roots allow =>
+          (exists ci r, identity_leaf key_matches (c_identity c) = Some ci /\
+                        In r roots /\ client_cert_ok r ci = true /\
+                        peer_certs_exposed rc ra f e srv = Some ci) \/
           (allow = true /\ c_identity c = None /\ peer_certs_exposed rc ra f e srv = None)
       end.
   Proof.
@@ -617,6 +1028,184 @@ Section Laws.
     exact (served_over_https_implies_all_o f None None h c e srv Hf Hcfg H).
   Qed.
 End Laws.
+
+(* ------------------------------------------------------------------ io_stream.rs: any schedule *)
+Section IoStreamFacts.
+  Context {io : Type}.
+  Variable accept : nat -> option io.
+
+  Lemma existsb_eqb_In : forall k l, existsb (Nat.eqb k) l = true <-> In k l.
+  Proof.
+    intros k l. rewrite existsb_exists. split.
+    - intros (x & H & E). apply Nat.eqb_eq in E. now subst.
+    - intro H. exists k. split; [exact H|apply Nat.eqb_refl].
+  Qed.
+
+  Lemma remove_task_subset : forall k x l, In x (remove_task k l) -> In x l.
+  Proof.
+    induction l as [|y l IH]; simpl; intro H; [contradiction|].
+    destruct (Nat.eqb k y); [now right|]. destruct H as [H|H]; [now left|right; auto].
+  Qed.
+  Lemma remove_task_other : forall k x l, x <> k -> In x l -> In x (remove_task k l).
+  Proof.
+    induction l as [|y l IH]; simpl; intros N H; [contradiction|].
+    destruct (Nat.eqb k y) eqn:E.
+    - apply Nat.eqb_eq in E. subst y. destruct H as [H|H]; [congruence|exact H].
+    - destruct H as [H|H]; [now left|right; auto].
+  Qed.
+  Lemma remove_task_nodup : forall k l, NoDup l -> NoDup (remove_task k l) /\ ~ In k (remove_task k l).
+  Proof.
+    induction l as [|y l IH]; simpl; intro H; [split; [constructor|tauto]|].
+    inversion H as [|? ? Hy Hl]; subst.
+    destruct (Nat.eqb k y) eqn:E.
+    - apply Nat.eqb_eq in E. subst y. split; assumption.
+    - apply Nat.eqb_neq in E. destruct (IH Hl) as [N1 N2]. split.
+      + constructor; [|exact N1]. intro X. apply Hy. now apply remove_task_subset in X.
+      + intros [X|X]; [congruence|tauto].
+  Qed.
+
+  (* whatever the schedule: a connection is handed on only if it came in (or its task was already
+     running) and ITS accept task succeeded, with the stream that task produced *)
+  Theorem sio_yield_sound : forall evs tasks k x,
+    In (OutIo k x) (sio_run accept tasks evs) ->
+    accept k = Some x /\ (In k tasks \/ In k (arrivals evs)).
+  Proof.
+    induction evs as [|ev evs IH]; simpl; intros tasks k x H; [contradiction|].
+    destruct ev as [j|fatal| |j]; simpl in H.
+    - apply IH in H. destruct H as [A [[B|B]|B]]; split; auto.
+      + subst j. right. now left.
+      + right. now right.
+    - apply in_app_or in H. destruct H as [H|H].
+      + destruct fatal; simpl in H.
+        * destruct H as [H|H]; [discriminate|contradiction].
+        * contradiction.
+      + apply IH in H. tauto.
+    - contradiction.
+    - destruct (existsb (Nat.eqb j) tasks) eqn:E; simpl in H.
+      + apply in_app_or in H. destruct H as [H|H].
+        * destruct (accept j) as [y|] eqn:A; simpl in H; [|contradiction].
+          destruct H as [H|H]; [|contradiction]. injection H as <- <-.
+          split; [exact A|left]. now apply existsb_eqb_In.
+        * apply IH in H. destruct H as [A [B|B]]; split; auto. left. now apply remove_task_subset in B.
+      + apply IH in H. tauto.
+  Qed.
+
+  Lemma nodup_app_l : forall (a b : list nat), NoDup (a ++ b) -> NoDup a.
+  Proof.
+    induction a as [|x a IH]; simpl; intros b H; [constructor|].
+    inversion H as [|? ? Hx Hr]; subst. constructor; [|now apply (IH b)].
+    intro X. apply Hx. apply in_or_app. now left.
+  Qed.
+  Lemma nodup_app_disj : forall (a b : list nat) x, NoDup (a ++ b) -> In x a -> In x b -> False.
+  Proof.
+    induction a as [|y a IH]; simpl; intros b x H Ha Hb; [contradiction|].
+    inversion H as [|? ? Hy Hr]; subst. destruct Ha as [->|Ha].
+    - apply Hy. apply in_or_app. now right.
+    - now apply (IH b x).
+  Qed.
+  Lemma remove_task_app_nodup : forall j (l m : list nat), NoDup (l ++ m) -> NoDup (remove_task j l ++ m).
+  Proof.
+    induction l as [|y l IH]; simpl; intros m H; [exact H|].
+    inversion H as [|? ? Hy Hr]; subst.
+    destruct (Nat.eqb j y); [exact Hr|]. simpl. constructor; [|now apply IH].
+    intro X. apply Hy. apply in_app_or in X. apply in_or_app.
+    destruct X as [X|X]; [left; now apply remove_task_subset in X|now right].
+  Qed.
+
+  Lemma yielded_app : forall a b : list (@sio_out io), yielded (a ++ b) = yielded a ++ yielded b.
+  Proof. intros. unfold yielded. now rewrite flat_map_app. Qed.
+
+  Lemma yielded_in : forall (o : list (@sio_out io)) k, In k (yielded o) -> exists x, In (OutIo k x) o.
+  Proof.
+    induction o as [|[j y|] o IH]; simpl; intros k H; [contradiction| |].
+    - destruct H as [<-|H]; [now exists y; left|]. destruct (IH _ H) as (x & Hx). exists x. now right.
+    - destruct (IH _ H) as (x & Hx). exists x. now right.
+  Qed.
+
+  (* ... and at most once, as long as the incoming stream does not yield a connection twice *)
+  Theorem sio_yield_once : forall evs tasks,
+    NoDup (tasks ++ arrivals evs) -> NoDup (yielded (sio_run accept tasks evs)).
+  Proof.
+    induction evs as [|ev evs IH]; simpl; intros tasks H; [constructor|].
+    destruct ev as [j|fatal| |j]; simpl in *.
+    - apply IH. simpl. apply NoDup_remove in H. destruct H as [H1 H2]. now constructor.
+    - rewrite yielded_app. destruct fatal; simpl; now apply IH.
+    - constructor.
+    - destruct (existsb (Nat.eqb j) tasks) eqn:E; simpl; [|now apply IH].
+      rewrite yielded_app.
+      pose proof (remove_task_app_nodup j _ _ H) as Hrest.
+      pose proof (IH _ Hrest) as Hy.
+      destruct (accept j) as [y|] eqn:A; simpl; [|exact Hy].
+      constructor; [|exact Hy]. intro X.
+      destruct (yielded_in _ _ X) as (x & Hx). apply sio_yield_sound in Hx.
+      destruct Hx as [_ [B|B]].
+      + apply nodup_app_l in H. now destruct (remove_task_nodup j tasks H).
+      + apply existsb_eqb_In in E. exact (nodup_app_disj _ _ _ H E B).
+  Qed.
+
+  (* a prefix of the schedule in which the incoming stream does not end only changes the JoinSet *)
+  Lemma sio_run_prefix : forall pre tasks rest,
+    no_end pre -> exists out tasks',
+      sio_run accept tasks (pre ++ rest) = out ++ sio_run accept tasks' rest.
+  Proof.
+    induction pre as [|ev pre IH]; intros tasks rest N.
+    - now exists [], tasks.
+    - assert (N' : no_end pre) by (intro X; apply N; now right).
+      destruct ev as [j|fatal| |j]; simpl.
+      + destruct (IH (j :: tasks) rest N') as (o & t' & E). now exists o, t'.
+      + destruct (IH tasks rest N') as (o & t' & E).
+        exists ((if fatal then [OutErr] else []) ++ o), t'. now rewrite E, app_assoc.
+      + exfalso. apply N. now left.
+      + destruct (existsb (Nat.eqb j) tasks) eqn:Ej; simpl.
+        * destruct (IH (remove_task j tasks) rest N') as (o & t' & E).
+          exists ((match accept j with Some x => [OutIo j x] | None => [] end) ++ o), t'.
+          now rewrite E, app_assoc.
+        * destruct (IH tasks rest N') as (o & t' & E). now exists o, t'.
+  Qed.
+
+  Lemma sio_done_yields : forall mid tasks k x post,
+    accept k = Some x -> In k tasks -> no_end mid ->
+    In (OutIo k x) (sio_run accept tasks (mid ++ EvTaskDone k :: post)).
+  Proof.
+    induction mid as [|ev mid IH]; intros tasks k x post A Hk N; simpl.
+    - apply existsb_eqb_In in Hk. rewrite Hk, A. simpl. now left.
+    - assert (N' : no_end mid) by (intro X; apply N; now right).
+      destruct ev as [j|fatal| |j]; simpl.
+      + apply IH; auto. now right.
+      + apply in_or_app. right. now apply IH.
+      + exfalso. apply N. now left.
+      + destruct (existsb (Nat.eqb j) tasks) eqn:Ej; simpl; [|now apply IH].
+        apply in_or_app. destruct (Nat.eq_dec j k) as [->|Ne].
+        * left. rewrite A. now left.
+        * right. apply IH; auto. apply remove_task_other; auto.
+  Qed.
+
+  (* ... and it IS handed on, whatever else happens in between (other connections coming in,
+     their handshakes failing or never finishing, non-fatal accept errors), once its accept task
+     has succeeded - unless the incoming stream ended first *)
+  Theorem sio_yield_complete : forall pre mid post k x,
+    accept k = Some x -> no_end pre -> no_end mid ->
+    In (OutIo k x) (sio_run accept [] (pre ++ EvIncoming k :: mid ++ EvTaskDone k :: post)).
+  Proof.
+    intros pre mid post k x A Np Nm.
+    destruct (sio_run_prefix pre [] (EvIncoming k :: mid ++ EvTaskDone k :: post) Np) as (o & t' & E).
+    rewrite E. apply in_or_app. right. simpl.
+    apply sio_done_yields; auto. now left.
+  Qed.
+  (* without an acceptor every connection that comes in before the stream ends is handed on, in order *)
+  Lemma sio_plain_yields : forall (plain : nat -> io) evs,
+    no_end evs -> yielded (sio_run_plain plain evs) = arrivals evs.
+  Proof.
+    induction evs as [|ev evs IH]; intro N; [reflexivity|].
+    assert (N' : no_end evs) by (intro X; apply N; now right).
+    destruct ev as [j|fatal| |j]; simpl.
+    - now rewrite (IH N').
+    - rewrite yielded_app. destruct fatal; simpl; now apply IH.
+    - exfalso. apply N. now left.
+    - now apply IH.
+  Qed.
+End IoStreamFacts.
+
 
 (* ------------------------------------------------------------------ the reference handshake satisfies the contract *)
 Section ReferenceSound.
@@ -635,13 +1224,14 @@ Section ReferenceSound.
       destruct (name_ok (tc_domain t) (a_cert a)); simpl in H; try discriminate; auto.
   Qed.
 
-  Lemma ref_accept_sound : accept_sound client_cert_ok (ref_accept client_cert_ok).
+  Lemma ref_accept_sound : accept_sound client_cert_ok (@ref_accept cert ca client_cert_ok).
   Proof.
     intros a ident pc H. unfold ref_accept in H.
-    destruct (a_verifier a) as [|root allow]; [now injection H as <-|].
+    destruct (a_verifier a) as [|roots allow]; [now injection H as <-|].
     destruct ident as [c|].
-    - destruct (client_cert_ok root c) eqn:E; [|discriminate]. injection H as <-.
-      left. now exists c.
+    - destruct (existsb (fun r => client_cert_ok r c) roots) eqn:E; [|discriminate]. injection H as <-.
+      apply existsb_exists in E. destruct E as (r & Hin & Hok).
+      left. now exists c, r.
     - destruct allow; [|discriminate]. injection H as <-. now right.
   Qed.
 
@@ -655,6 +1245,90 @@ Section ReferenceSound.
     now apply find_some in F.
   Qed.
 End ReferenceSound.
+
+(* ------------------------------------------------------------------ the reference handshake: the property as an equivalence *)
+Section ReferenceIff.
+  Context {cert ca dname : Type}.
+  Variable chain_ok : list ca -> cert -> bool.
+  Variable name_ok : dname -> cert -> bool.
+  Variable client_cert_ok : ca -> cert -> bool.
+  Variable anchor_named : list ca -> cert -> bool.
+  Let rc := @ref_connect cert ca dname chain_ok name_ok anchor_named.
+  Let ra := @ref_accept cert ca client_cert_ok.
+
+  Lemma oproto_h2_iff : forall o, oproto_eqb o (Some ALPN_H2) = true <-> o = Some ALPN_H2.
+  Proof.
+    intro o. split; [apply oproto_eqb_eq|]. intros ->. simpl. unfold proto_eqb.
+    apply (list_eqb_refl N.eqb N.eqb_refl).
+  Qed.
+
+  (* For the reference handshake the property is an EQUIVALENCE, for every configuration: over an
+     https endpoint with a connector, against a TLS listener, a handler runs iff the ALPN
+     negotiation does not abort, the certificate chains to the connector's roots and matches its
+     name, h2 was selected or the caller opted out, and the listener's verifier admits the
+     client's identity *)
+  Theorem ref_served_iff : forall f (e : @Endpoint cert ca dname) a t,
+    f_tls f = true -> is_https (e_scheme e) = true -> e_tls e = Some t ->
+    (request_reaches_handler rc ra f e (STls a) = true <->
+     ref_negotiate (tc_alpn t) (a_alpn a) <> NegAbort /\
+     chain_ok (tc_roots t) (a_cert a) = true /\
+     name_ok (tc_domain t) (a_cert a) = true /\
+     (ref_negotiate (tc_alpn t) (a_alpn a) = NegProto ALPN_H2 \/ tc_assume_http2 t = true) /\
+     ref_admits client_cert_ok a (tc_identity t) = true).
+  Proof.
+    intros f e a t Hf Hs Ht.
+    unfold request_reaches_handler, handler_io, listener_yields, tls_accept_task, connect_outcome, connect_uri.
+    simpl fst. rewrite Hf, Hs, Ht. simpl andb. cbv iota.
+    unfold tls_connect, rc, ref_connect.
+    destruct (ref_negotiate (tc_alpn t) (a_alpn a)) as [| |p] eqn:N.
+    - split; [discriminate|]. intros (X & _). now elim X.
+    - destruct (chain_ok (tc_roots t) (a_cert a)) eqn:C; simpl.
+      2:{ split; [discriminate|]. intros (_ & X & _). discriminate. }
+      destruct (name_ok (tc_domain t) (a_cert a)) eqn:Nm; simpl.
+      2:{ split; [discriminate|]. intros (_ & _ & X & _). discriminate. }
+      unfold ra, ref_accept, ref_admits.
+      destruct (tc_assume_http2 t) eqn:As; simpl.
+      + destruct (a_verifier a) as [|roots allow]; simpl.
+        * split; [intros _; repeat split; auto; discriminate|reflexivity].
+        * destruct (tc_identity t) as [c|].
+          -- destruct (existsb _ roots) eqn:Ex; simpl; split; intro H; try discriminate; try reflexivity.
+             ++ repeat split; auto. discriminate.
+             ++ destruct H as (_ & _ & _ & _ & X). discriminate.
+          -- destruct allow; simpl; split; intro H; try discriminate; try reflexivity.
+             ++ repeat split; auto. discriminate.
+             ++ destruct H as (_ & _ & _ & _ & X). discriminate.
+      + split.
+        * intro H. exfalso.
+          destruct (a_verifier a) as [|roots allow]; simpl in H; try discriminate.
+          destruct (tc_identity t) as [c|]; [destruct (existsb _ roots)|destruct allow]; simpl in H; discriminate.
+        * intros (_ & _ & _ & [X|X] & _); discriminate.
+    - destruct (chain_ok (tc_roots t) (a_cert a)) eqn:C; simpl.
+      2:{ split; [discriminate|]. intros (_ & X & _). discriminate. }
+      destruct (name_ok (tc_domain t) (a_cert a)) eqn:Nm; simpl.
+      2:{ split; [discriminate|]. intros (_ & _ & X & _). discriminate. }
+      unfold ra, ref_accept, ref_admits.
+      destruct (proto_eqb p ALPN_H2 || tc_assume_http2 t) eqn:G; simpl.
+      + assert (G' : NegProto p = NegProto ALPN_H2 \/ tc_assume_http2 t = true).
+        { apply orb_true_iff in G. destruct G as [G|G]; [left|now right].
+          unfold proto_eqb in G. apply list_eqb_N_eq in G. now subst. }
+        destruct (a_verifier a) as [|roots allow]; simpl.
+        * split; [intros _; repeat split; auto; discriminate|reflexivity].
+        * destruct (tc_identity t) as [c|].
+          -- destruct (existsb _ roots) eqn:Ex; simpl; split; intro H; try discriminate; try reflexivity.
+             ++ repeat split; auto. discriminate.
+             ++ destruct H as (_ & _ & _ & _ & X). discriminate.
+          -- destruct allow; simpl; split; intro H; try discriminate; try reflexivity.
+             ++ repeat split; auto. discriminate.
+             ++ destruct H as (_ & _ & _ & _ & X). discriminate.
+      + apply orb_false_iff in G. destruct G as [G1 G2]. split.
+        * intro H. exfalso.
+          destruct (a_verifier a) as [|roots allow]; simpl in H; try discriminate.
+          destruct (tc_identity t) as [c|]; [destruct (existsb _ roots)|destruct allow]; simpl in H; discriminate.
+        * intros (_ & _ & _ & [X|X] & _); [|congruence].
+          injection X as ->. unfold proto_eqb in G1.
+          now rewrite (list_eqb_refl N.eqb N.eqb_refl) in G1.
+  Qed.
+End ReferenceIff.
 
 (* ------------------------------------------------------------------ the matrix *)
 Lemma all_cells_complete : forall x : cell, In x all_cells.
@@ -699,10 +1373,10 @@ Proof. apply ref_accept_sound. Qed.
 
 (* tonic's own acceptor against any rustls-like client: only h2 is ever selected *)
 Lemma tonic_server_selects_only_h2 : forall (s : @ServerTlsConfig certid caid) a offers p,
-  tls_acceptor t_ca_usable s = AccOk a -> ref_negotiate offers (a_alpn a) = NegProto p -> p = ALPN_H2.
+  t_acceptor s = AccOk a -> ref_negotiate offers (a_alpn a) = NegProto p -> p = ALPN_H2.
 Proof.
   intros s a offers p Ha Hn.
-  destruct (tls_acceptor_spec t_ca_usable s a Ha) as (_ & Hal & _). rewrite Hal in Hn.
+  destruct (tls_acceptor_spec t_key_matches s a Ha) as (_ & Hal & _). rewrite Hal in Hn.
   apply ref_negotiate_sound in Hn. destruct Hn as [[<-|[]] _]. reflexivity.
 Qed.
 
@@ -727,7 +1401,7 @@ Qed.
    without certificate into the strict one *)
 Lemma shared_store_breaks_client_auth :
   let open_a := {| a_cert := SrvExample; a_verifier := NoClientAuth; a_alpn := [ALPN_H2] |} in
-  let strict_a := {| a_cert := SrvExample; a_verifier := WebPki CA2 false; a_alpn := [ALPN_H2] |} in
+  let strict_a := {| a_cert := SrvExample; a_verifier := WebPki [CA2] false; a_alpn := [ALPN_H2] |} in
   visits t_accept ref_resume None None
     [ {| l_store := 0; l_acc := open_a |}; {| l_store := 0; l_acc := strict_a |} ]
     = [SrvAccept None; SrvAccept None] /\
